@@ -25,7 +25,13 @@ def ekey(entity):
 
 
 def _meta(m):
-    return dict(m) if m else {}
+    """Copy of a returned metadata mapping; the returned object itself is then scribbled on
+    (callers own what the API hands them: nothing they do to it may reach later results)."""
+    out = dict(m) if m else {}
+    if isinstance(m, dict):
+        m.clear()
+        m['scribbled-by-caller'] = True
+    return out
 
 
 def form_obs(f):
